@@ -223,6 +223,26 @@ def run(ctx):
         for s in range(nsec):
             sections[rng.choice(['b_sec', 'a_sec', 'Z', 'rules'][s:] or ['x'])] = make_defaults(rng, rng.randint(0 if nsec > 1 else 1, 3))
         cases.append(one_case(rng, sections, rng.random() < 0.3))
+    # the bare corners, always: each kind of default without description / with an empty or missing reason,
+    # without operations and scope, alone and next to a plain default, with and without exclude-deprecated
+    from oslo_policy import policy as _policy
+    for kind in ('plain', 'removal', 'renamed', 'changed'):
+        for reason in ('', None, 'because'):
+            for desc in (None, '', 'A description.'):
+                for excl in (False, True):
+                    kw = {}
+                    if kind == 'removal':
+                        kw.update(deprecated_for_removal=True, deprecated_reason=reason or '', deprecated_since='N')
+                    elif kind == 'renamed':
+                        kw['deprecated_rule'] = _policy.DeprecatedRule('old:thing', 'role:old', deprecated_reason=reason, deprecated_since='N')
+                    elif kind == 'changed':
+                        kw['deprecated_rule'] = _policy.DeprecatedRule('svc:thing', 'role:old', deprecated_reason=reason, deprecated_since='N')
+                    elif reason != '':
+                        continue
+                    d0 = _policy.RuleDefault('svc:thing', 'role:admin', description=desc, **kw)
+                    d1 = _policy.RuleDefault('svc:other', '@')
+                    meta = [{'name': 'svc:thing', 'check': 'role:admin', 'kind': kind}, {'name': 'svc:other', 'check': '@', 'kind': 'plain'}]
+                    cases.append(one_case(rng, {'sec': ([d0, d1] if (len(cases) % 2) else [d1, d0], meta if (len(cases) % 2) else meta[::-1])}, excl))
     rejected, st = tlc.judge_cases('Conf_Sample', [strip(c) for c in cases], chunk=5000, timeout=3000)
     ctx.traces += len(cases)
     from harness import canary
